@@ -282,3 +282,37 @@ package lang
 //@   at store Stderr#1 assert p.Stderr == p.Stdout
 //@   at store Stderr#2 assert p.Stderr == pipeǂ1
 //@   at store Stdout#2 assert p.Stdout == pipeǂ2
+
+// ---- C22: command resolution order (executeProcess) ---------------------------------------------------
+// The definition tables as pure predicates (trusted: locked map lookups; a table changing between
+// the test and the use is outside the claim):
+//@ spec $isPrivate(name string, fileRef int) bool
+//@ spec $isAlias(name string) bool
+//@ spec $isFunc(name string) bool
+//@ func (*privateFunctions).Exists [C22] trusted
+//@   pure
+//@   ensures result == $isPrivate(name, fileRef)
+//@ func (*Aliases).Exists [C22] trusted
+//@   pure
+//@   ensures result == $isAlias(name)
+//@ func (*MurexFuncs).Exists [C22] trusted
+//@   pure
+//@   ensures result == $isFunc(name)
+
+// executeProcess (abstracted; call-site assertions = the precedence order of the property):
+//  private function  - only inside a module scope and only if a private of that name exists;
+//  alias             - only if no private matches, an alias exists, the parent is not `alias`, and no
+//                      alias has been expanded yet for this command (aliases expand once);
+//  murex function    - only if neither of the above applies to the current name;
+//  builtin           - only if additionally no murex function of that name exists;
+//  a function body runs only if its parameters were cast without error.
+//@ func executeProcess [C22]
+//@   scope functional
+//@   check none
+//@   requires p != nil
+//@   at call (*privateFunctions).get#1 assert p.Scope.Id != ShellProcess.Id && $isPrivate(name, p.FileRef)
+//@   at call (*Aliases).Get#1 assert !(p.Scope.Id != ShellProcess.Id && $isPrivate(name, p.FileRef)) && $isAlias(name) && !parsedAlias && p.Parent.Name.name != "alias"
+//@   at call (*MurexFuncs).get#1 assert !(p.Scope.Id != ShellProcess.Id && $isPrivate(name, p.FileRef)) && imp($isAlias(name), parsedAlias || p.Parent.Name.name == "alias") && $isFunc(name)
+//@   at call dynamic:GoFunctions[]#1 assert !(p.Scope.Id != ShellProcess.Id && $isPrivate(name, p.FileRef)) && imp($isAlias(name), parsedAlias || p.Parent.Name.name == "alias") && !$isFunc(name)
+//@   at call (*Fork).Execute#2 assert err == nil
+//@   loop 1 step imp(old(parsedAlias), parsedAlias)
